@@ -211,7 +211,7 @@ def run(ctx):
             if rt and lift.RT_DIAG:
                 ctx.violation('R-LIFT', cfg, name, dict(where, problem='SSE2 %s is an integer round-trip algorithm that is not %s: %s' % (mname, src, lift.RT_DIAG[0]), lane0=tm.show(lanes[0], 0, 6)[:300]))
                 continue
-            if rt:
+            if rt and 'x86:cvttps_epi32' in tm.show(lanes[0], 0, 40):
                 ctx.undecided('R-LIFT', cfg, name, 'SSE2 %s is an integer round-trip algorithm of a shape the recogniser (facts F1-F5, rules/lift.py) does not know; numeric equality with %s is not decided' % (mname, src))
                 continue
             definite = tm.depth(canon_float(got)) <= 3 and tm.depth(canon_float(exp)) <= 3
@@ -219,7 +219,7 @@ def run(ctx):
                           definite='both sides are short compositions of vocabulary primitives that differ' if definite else 'composite terms differ')
             ctx.violation('R-LIFT', cfg, name, detail)
         if be == 'sse2':
-            ctx.floor('SSE2 integer round-trip rounding operations recognised (%s)' % cfg, n_rt, 12)
+            ctx.floor('SSE2 floor/ceil/trunc/round/fract operations decided (%s)' % cfg, n_rt, 12)
         ctx.floor('lane-wise float operations (%s)' % cfg, n_lane, FLOOR_LANEWISE)
         ctx.floor('float reductions / predicates (%s)' % cfg, n_red, FLOOR_REDUCE)
         ctx.floor('float vector types (%s)' % cfg, len(types), 7)
